@@ -180,6 +180,29 @@ func (w *world) history(init []E, s ds.Set[E], calls []hcall, seq *atomic.Int64)
 	}
 	line := "lin " + commaList(init) + " " + strings.Join(toks, " ")
 	pendingLines = append(pendingLines, line)
+	// independent oracle: the completed calls plus the final Has sweep must be linearizable w.r.t. the plain model
+	all := append([]hcall(nil), calls...)
+	for _, tk := range toks[len(calls):] {
+		var c hcall
+		parts := strings.SplitN(tk, ";", 3)
+		fmt.Sscan(parts[0], &c.inv)
+		fmt.Sscan(parts[1], &c.ret)
+		c.text = parts[2]
+		all = append(all, c)
+	}
+	if !linearizableGo(init, all) {
+		kinds := map[string]bool{}
+		for _, c := range calls {
+			kinds[strings.SplitN(c.text, ";", 2)[0]] = true
+		}
+		var ks []string
+		for _, k := range []string{"add", "del", "has", "apply", "compute", "replace", "addall", "delall"} {
+			if kinds[k] {
+				ks = append(ks, k)
+			}
+		}
+		w.r.Fail("not-linearizable", line, map[string]string{"api": "Set", "oracle": "not-linearizable", "calls": strings.Join(ks, ",")})
+	}
 	overlap := false
 	for i := range calls {
 		for j := range calls {
@@ -218,7 +241,9 @@ func runCop(s ds.Set[E], c cop, api *serix.API) string {
 	case "has":
 		return fmt.Sprintf("has;%d;%v", c.e, s.Has(c.e))
 	case "apply":
-		m := s.Apply(ds.NewSetMutations(c.a...).WithDeletedElements(ds.NewSet(c.d...)))
+		// the argument sets yield between elements so that other goroutines get a chance to run inside Apply
+		m := s.Apply(ds.NewSetMutations[E]().WithAddedElements(&parkSet{Set: ds.NewSet(c.a...), yield: true}).
+			WithDeletedElements(&parkSet{Set: ds.NewSet(c.d...), yield: true}))
 
 		return fmt.Sprintf("apply;%s;%s;%s;%s", commaList(c.a), commaList(c.d), commaList(m.AddedElements().ToSlice()), commaList(m.DeletedElements().ToSlice()))
 	case "compute":
@@ -226,7 +251,7 @@ func runCop(s ds.Set[E], c cop, api *serix.API) string {
 
 		return fmt.Sprintf("compute;%s;%s;%s;%s", commaList(c.a), commaList(c.d), commaList(m.AddedElements().ToSlice()), commaList(m.DeletedElements().ToSlice()))
 	case "replace":
-		return fmt.Sprintf("replace;%s;%s", commaList(c.a), commaList(s.Replace(ds.NewSet(c.a...)).ToSlice()))
+		return fmt.Sprintf("replace;%s;%s", commaList(c.a), commaList(s.Replace(&parkSet{Set: ds.NewSet(c.a...), yield: true}).ToSlice()))
 	case "addall":
 		return fmt.Sprintf("addall;%s;%s", commaList(c.a), commaList(s.AddAll(&parkSet{Set: ds.NewSet(c.a...), yield: true}).ToSlice()))
 	case "delall":
@@ -300,6 +325,12 @@ func (w *world) stress(kind string, threads, n int, seed uint64) string {
 	done := make(chan struct{}, threads)
 	for t := 0; t < threads; t++ {
 		go func() {
+			defer func() {
+				if e := recover(); e != nil {
+					w.r.Fail("panic", fmt.Sprintf("stress %s: %v", kind, e), map[string]string{"api": "Set", "oracle": "panic", "schedule": "stress-" + kind})
+					done <- struct{}{}
+				}
+			}()
 			<-start
 			for _, c := range progs[t] {
 				inv := seq.Add(1)
